@@ -306,6 +306,17 @@ func newGaugeTracker() *gaugeTracker { return &gaugeTracker{g: map[string]*track
 
 // AfterTx learns new gauges and deposits from the state after a transaction.
 func (gt *gaugeTracker) AfterTx(rc *RunCtx, s *SW, pre, post chain.Balances) {
+	gt.afterTx(rc, s, pre, post, false)
+}
+
+// AfterTopUp is AfterTx for a transaction the workload itself sent as a third-party transfer into an escrow account:
+// what enters existing escrows is booked as a top-up (what a purchase pays into an escrow is never a top-up, even if
+// the escrow already existed - that would be two purchases sharing one gauge).
+func (gt *gaugeTracker) AfterTopUp(rc *RunCtx, s *SW, pre, post chain.Balances) {
+	gt.afterTx(rc, s, pre, post, true)
+}
+
+func (gt *gaugeTracker) afterTx(rc *RunCtx, s *SW, pre, post chain.Balances, topUp bool) {
 	var gr storagetypes.QueryAllGaugesResponse
 	if err := s.q("Gauges", &storagetypes.QueryAllGauges{Pagination: pg()}, &gr); err != nil {
 		return
@@ -326,7 +337,7 @@ func (gt *gaugeTracker) AfterTx(rc *RunCtx, s *SW, pre, post chain.Balances) {
 		for dn, v := range df[ad] {
 			if v.IsPositive() {
 				t.Deposit = t.Deposit.Add(sdk.NewCoin(dn, v))
-				if !isNew {
+				if !isNew && topUp {
 					t.TopUp = t.TopUp.Add(sdk.NewCoin(dn, v))
 				}
 			}
